@@ -103,6 +103,17 @@ func (s *simState) apply(e simEvent, free bool) error {
 
 func (s *simState) enabled() []simEvent {
 	ev := s.w.enabled(&s.sc.Menu, s.cnt)
+	if s.sc.Menu.OrderCost {
+		first := true
+		for i := range ev {
+			if ev[i].Dev == 0 {
+				if !first {
+					ev[i].Dev = 1
+				}
+				first = false
+			}
+		}
+	}
 	out := ev[:0]
 	for _, e := range ev {
 		if s.dev+e.Dev <= s.sc.MaxDev {
@@ -163,6 +174,27 @@ func (s *simState) runScript(script []string) error {
 			err = s.apply(simEvent{K: "PB", N: num(1) - 1, A: num(2) - 1}, true)
 		case "heal":
 			err = s.apply(simEvent{K: "PH", N: num(1) - 1, A: num(2) - 1}, true)
+		case "disc":
+			// deliver every pending "peer disconnected" notification
+			for {
+				var pick *simEvent
+				save := w.opt.Disconnects
+				w.opt.Disconnects = true
+				ev := w.enabled(&simMenu{}, s.cnt)
+				w.opt.Disconnects = save
+				for j := range ev {
+					if ev[j].K == "DC" {
+						pick = &ev[j]
+						break
+					}
+				}
+				if pick == nil {
+					break
+				}
+				if err = s.apply(*pick, true); err != nil {
+					break
+				}
+			}
 		case "ev":
 			var e simEvent
 			if err = json.Unmarshal([]byte(strings.SplitN(cmd, ":", 2)[1]), &e); err == nil {
@@ -183,7 +215,7 @@ func (s *simState) runScript(script []string) error {
 
 // runFree applies free (deviation 0) events in canonical order.
 func (s *simState) runFree(limit int, stop func() bool) error {
-	free := simMenu{Disconnects: s.sc.Menu.Disconnects}
+	free := simMenu{}
 	for i := 0; i < limit; i++ {
 		if stop != nil && stop() {
 			return nil
@@ -233,6 +265,8 @@ type expandResp struct {
 	Stats    map[string]int `json:"stats,omitempty"`
 	Canon    string         `json:"canon,omitempty"`
 	Final    []simViolation `json:"final,omitempty"`
+	OrderSteps int          `json:"orderSteps,omitempty"` // transitions repeated because they may depend on map iteration order
+	OrderAlts  int          `json:"orderAlts,omitempty"`  // additional outcomes found that way
 }
 
 func replayHist(sc *simScenario, hist []simEvent) (*simState, error) {
@@ -256,17 +290,65 @@ func describeErr(s *simState, err error) string {
 	return msg
 }
 
+// mapOrderRisk tells whether a step of some leader may depend on Go's map
+// iteration order (DESIGN.md 2.4): two or more membership actions pending at
+// once (checkConfigActions ranges over a map) or a transfer to "any" target
+// with several candidates (tryTransfer ranges over a map).
+func (w *world) mapOrderRisk() bool {
+	for _, n := range w.nodes {
+		if !n.up || n.r.state != Leader {
+			continue
+		}
+		r := n.r
+		actions := 0
+		for _, nd := range r.configs.Latest.Nodes {
+			if nd.nextAction() != None || (nd.ID == r.nid && nd.Action != None) {
+				actions++
+			}
+		}
+		if actions >= 2 {
+			return true
+		}
+		if r.ldr.transfer.inProgress() && r.ldr.transfer.target == 0 && r.configs.Latest.numVoters() > 2 {
+			return true
+		}
+	}
+	return false
+}
+
+const simOrderRetries = 12
+
+// replayMatch replays hist until the state with the recorded hash is reached
+// (a history through a map-order dependent step may need several attempts).
+func replayMatch(sc *simScenario, hist []simEvent, want string) (*simState, error, bool) {
+	var s *simState
+	var err error
+	for try := 0; try < simOrderRetries; try++ {
+		s, err = replayHist(sc, hist)
+		if err != nil {
+			return s, err, false
+		}
+		if want == "" || s.hash() == want {
+			return s, nil, true
+		}
+		if try+1 < simOrderRetries {
+			s.close()
+		}
+	}
+	return s, nil, false
+}
+
 // expand computes all successors of the state reached by req.Hist.
 func expandState(sc *simScenario, req *expandReq) *expandResp {
 	resp := &expandResp{ID: req.ID}
-	s, err := replayHist(sc, req.Hist)
+	s, err, matched := replayMatch(sc, req.Hist, req.Hash)
 	if err != nil {
 		resp.Err = describeErr(s, err)
 		s.close()
 		return resp
 	}
 	resp.Hash = s.hash()
-	if req.Hash != "" && req.Hash != resp.Hash {
+	if !matched {
 		resp.Mismatch = true
 	}
 	if len(req.Hist) == 0 {
@@ -287,30 +369,54 @@ func expandState(sc *simScenario, req *expandReq) *expandResp {
 	if sc.Final != "" {
 		resp.Final = finalCheck(sc, req.Hist)
 	}
+	parentHash := resp.Hash
 	for i, e := range evs {
-		cur := s
-		if i > 0 {
-			cur, err = replayHist(sc, req.Hist)
-			if err != nil {
-				resp.Succ = append(resp.Succ, succRec{Ev: e, Err: "replay: " + describeErr(cur, err)})
-				cur.close()
-				continue
+		seenOut := map[string]bool{}
+		attempts := 1
+		for a := 0; a < attempts; a++ {
+			cur := s
+			if i > 0 || a > 0 {
+				var ok bool
+				cur, err, ok = replayMatch(sc, req.Hist, parentHash)
+				if err != nil || !ok {
+					if err == nil {
+						err = fmt.Errorf("parent state not reproduced in %d attempts", simOrderRetries)
+					}
+					if a == 0 {
+						resp.Succ = append(resp.Succ, succRec{Ev: e, Err: "replay: " + describeErr(cur, err)})
+					}
+					cur.close()
+					break
+				}
+			}
+			risk := cur.w.mapOrderRisk()
+			nv := len(cur.w.led.viol)
+			rec := succRec{Ev: e}
+			if err := cur.apply(e, false); err != nil {
+				rec.Err = describeErr(cur, err)
+			} else {
+				rec.Hash = cur.hash()
+				rec.Dev = cur.dev
+				rec.NEn = len(cur.enabled())
+				risk = risk || cur.w.mapOrderRisk()
+			}
+			if len(cur.w.led.viol) > nv {
+				rec.Viol = append(rec.Viol, cur.w.led.viol[nv:]...)
+			}
+			if !seenOut[rec.Hash+rec.Err] {
+				seenOut[rec.Hash+rec.Err] = true
+				resp.Succ = append(resp.Succ, rec)
+			}
+			cur.close()
+			if a == 0 && risk && rec.Err == "" {
+				// the outcome may depend on map iteration order: repeat to collect the alternatives
+				attempts = simOrderRetries
+				resp.OrderSteps++
 			}
 		}
-		nv := len(cur.w.led.viol)
-		rec := succRec{Ev: e}
-		if err := cur.apply(e, false); err != nil {
-			rec.Err = describeErr(cur, err)
-		} else {
-			rec.Hash = cur.hash()
-			rec.Dev = cur.dev
-			rec.NEn = len(cur.enabled())
+		if len(seenOut) > 1 {
+			resp.OrderAlts += len(seenOut) - 1
 		}
-		if len(cur.w.led.viol) > nv {
-			rec.Viol = append(rec.Viol, cur.w.led.viol[nv:]...)
-		}
-		resp.Succ = append(resp.Succ, rec)
-		cur.close()
 	}
 	if len(evs) == 0 {
 		s.close()
@@ -395,6 +501,8 @@ type exploreResult struct {
 	Outcomes     map[string]int // distinct terminal/branching shapes
 	Samples      [][]string
 	Mismatches   int
+	OrderSteps   int
+	OrderAlts    int
 	Validated    int // histories re-executed on the implementation that reproduced the recorded state hash
 	WorkerDeaths int
 	Wall         float64
@@ -434,7 +542,12 @@ func (wk *simWorker) call(req *expandReq) (*expandResp, error) {
 	if _, err := wk.in.Write(append(b, '\n')); err != nil {
 		return nil, err
 	}
+	// a worker that does not answer is killed: the history is reported as a hang
+	t := time.AfterFunc(simCallTimeout, func() { _ = wk.cmd.Process.Kill() })
 	line, err := wk.out.ReadBytes('\n')
+	if !t.Stop() && err != nil {
+		return nil, fmt.Errorf("worker hung for %v and was killed", simCallTimeout)
+	}
 	if err != nil {
 		return nil, err
 	}
@@ -456,6 +569,8 @@ func (wk *simWorker) stop() {
 		<-done
 	}
 }
+
+var simCallTimeout = 120 * time.Second
 
 // explore runs the deviation-bounded breadth-first search of one scenario.
 func explore(sc *simScenario, budget time.Duration, maxStates int) *exploreResult {
@@ -571,6 +686,8 @@ func explore(sc *simScenario, budget time.Duration, maxStates int) *exploreResul
 						addFinding(v, nil)
 					}
 				}
+				res.OrderSteps += resp.OrderSteps
+				res.OrderAlts += resp.OrderAlts
 				for k, v := range resp.Stats {
 					if v > res.Stats[k] {
 						res.Stats[k] = v
